@@ -1325,6 +1325,10 @@ class sliding_window(Stream):
         self._buffer.append(x)
         if not isinstance(metadata, list):
             metadata = [metadata]
+        if len(self.metadata_buffer) == self.n:
+            # only during a nested emission (feedback edge): the append below
+            # would silently evict the oldest entry without releasing it
+            self._release_refs(self.metadata_buffer.popleft())
         self.metadata_buffer.append(metadata)
         if self.partial or len(self._buffer) == self.n:
             flat_metadata = [m for ml in self.metadata_buffer for m in ml]
